@@ -5,6 +5,11 @@ D1 lifecycle bracket on every path of SemantivaOrchestrator.execute (CFG with EX
 D2 writer/schema agreement of the JSONL driver and the SER builder,
 D3 shared ids, canonical order and upstream edges,
 D4 one JSON object per line.
+
+Round 5 additions: D1g (str()/repr() of every exception class the package defines cannot raise inside the handlers),
+D1h (helpers reached from execute()'s handlers / finally blocks never take the truth value of a context entry / the
+payload data, or of a rich comparison of them, outside a containing try; run-state taint is handed down the call graph
+from the Payload parameter of execute), D4c (writer json.dumps options are no stricter than the sanitiser probes).
 """
 from __future__ import annotations
 
@@ -536,6 +541,10 @@ def run(repo: Repo, R: Report) -> None:
         "typing.cast/isinstance/bool/type/id and the Payload constructor do not raise",
         "for the per-node rule only node execution (_submit_and_wait / node.process), explicit raise statements and _publish are failure points; the orchestrator's own bookkeeping helpers are covered by C10's containment rules",
     )
+    R.assume(
+        "formatting a field plainly ({x}, {x!r}, str(x), repr(x)) and taking the truth value of an exception's own field do not raise (D1g) - the same assumption as for str(exc) of a user exception",
+        "D1h follows the run state (payload data, context and its snapshots) from execute() through arguments, returned copies, lambdas / local functions handed to a hooks object and methods of locals bound to a constructor call; a rich comparison whose result is *returned* and only tested by the caller is not followed",
+    )
     R.undecided("schema validity of free-form content (meta, summaries, error text)", "disk faults while writing")
     # (the probe / writer option mismatch for mappings with keys of mixed types was repaired in /repo d64f5eb and is
     # decided by C10-D1-sinks-accept-sanitised-values)
@@ -698,6 +707,8 @@ def run(repo: Repo, R: Report) -> None:
 
     # ------------------------------------------------------------------ D1d/D1e the code that closes the bracket cannot itself fail
     _closing_code_rules(repo, R, fn, g, drivers)
+    _exception_text_rules(repo, R)
+    _closing_helpers_total_rule(repo, R)
     _propagation_rules(repo, R, X)
 
     # ------------------------------------------------------------------ D3 ids, order, edges
@@ -1718,6 +1729,7 @@ def _line_rules(repo: Repo, R: Report) -> None:
             R.check(ascii_only or lenient, r_enc, JSONL, w.qn, norm(d),
                     f"json.dumps(..., ensure_ascii={ast.unparse(ea) if ea is not None else 'True'}) lets raw non-ASCII text through to a strict text file: a string with a lone surrogate (os.fsdecode of a non-UTF-8 file name in a parameter value or an exception message) makes write() raise UnicodeEncodeError, so the record (SER / pipeline_end) is lost and the original exception is replaced",
                     getattr(d, "lineno", w.call.lineno))
+    _writer_accepts_sanitised_rule(repo, R)
 
 
 def _last(path: Optional[List[str]]) -> str:
@@ -3027,3 +3039,683 @@ def _copied_from(v: ast.AST) -> Optional[ast.AST]:
     if isinstance(v, ast.BinOp) and isinstance(v.op, ast.BitOr):  # x | {...}: a new mapping that starts as a copy of x
         return v.left
     return None
+
+
+# ---------------------------------------------------------------------------
+# D4c: the writers accept every value the sanitisers let through (interface between trace/_utils.py,
+# metadata/semantic_id.py and the JSONL driver)
+# ---------------------------------------------------------------------------
+
+# json.dumps options that make the encoder reject values the default encoder accepts: option -> (what it rejects,
+# exception class it raises)
+STRICTER_DUMPS = {
+    "allow_nan": ("non-finite floats (inf / nan)", "ValueError"),
+    "sort_keys": ("mappings whose keys cannot be ordered (1 and 'a')", "TypeError"),
+}
+
+
+def _option_strict(d: ast.Call, opt: str) -> Optional[bool]:
+    """Is the acceptance-narrowing option *opt* switched on in this json.dumps call?  None: cannot be told."""
+    v = kwarg(d, opt)
+    if v is None:
+        return None if any(k.arg is None for k in d.keywords) else False
+    if not isinstance(v, ast.Constant):
+        return None
+    return (v.value is False) if opt == "allow_nan" else bool(v.value)
+
+
+def _caught_by(node: ast.AST, exc_class: str, stop: Optional[ast.AST] = None) -> bool:
+    """*node* lies in the body of a try whose handlers catch *exc_class* (by that name, a builtin base of it, or bare)."""
+    bases = {"ValueError": {"ValueError", "Exception", "BaseException"}, "TypeError": {"TypeError", "Exception", "BaseException"}}.get(exc_class, {exc_class, "Exception", "BaseException"})
+    cur = node
+    for a in ancestors(node):
+        if a is stop or isinstance(a, FuncNode):
+            break
+        if isinstance(a, ast.Try) and any(cur is st for st in a.body):
+            for h in a.handlers:
+                names = {"BaseException"} if h.type is None else {(dotted_name(x) or "").split(".")[-1] for x in (h.type.elts if isinstance(h.type, ast.Tuple) else [h.type])}
+                if names & bases:
+                    return True
+        cur = a
+    return False
+
+
+def _sanitiser_probes(repo: Repo) -> List[Tuple[str, str, ast.Call]]:
+    """[(file, function, json.dumps call)]: the strict serialisation probes that let a sanitiser return its argument
+    unchanged - found by role (a json.dumps of the parameter, also in a predicate helper the parameter is handed to)."""
+    out: List[Tuple[str, str, ast.Call]] = []
+
+    def collect(S: "_Sanitiser", top: str, depth: int) -> None:
+        for n in S.g.nodes:
+            if n.ast is None or isinstance(n.ast, FuncNode + (ast.ClassDef,)):
+                continue
+            part = n.part if n.part is not None else n.ast
+            for c in (calls_in(n.ast) if n.kind == "stmt" else calls_in(part)):
+                a0 = (c.args[0] if c.args else kwarg(c, "obj")) if isinstance(c, ast.Call) else None
+                if a0 is None:
+                    continue
+                is_param = (S.param_of(a0, [n.id]) or "").endswith("@param")
+                if not is_param:
+                    continue
+                if _is_json_dumps(repo, S.mod, c):
+                    if not any(c is x[2] for x in out):
+                        out.append((S.rel, top, c))
+                elif isinstance(c.func, ast.Name) and isinstance(S.mod.defs.get(c.func.id), ast.FunctionDef) and depth < 2 and c.func.id not in {q for _r, q in SANITISER_FUNCS}:
+                    collect(_Sanitiser(repo, S.rel, c.func.id, depth=depth + 1), top, depth + 1)
+
+    for rel, qn in SANITISER_FUNCS:
+        collect(_Sanitiser(repo, rel, qn), qn, 0)
+    return out
+
+
+def _writer_accepts_sanitised_rule(repo: Repo, R: Report) -> None:
+    r = R.rule("C06-D4c-writer-accepts-sanitised-values", "the json.dumps that produces a trace line is not stricter than the json.dumps probes of the sanitisers (serialize_json_safe, _json_safe_sample): an option that narrows what the encoder accepts (allow_nan=False, sort_keys=True) is either also an option of every probe or its exception is caught around the write - otherwise a value the sanitiser let through unchanged makes the writer raise, the SER / pipeline_start / pipeline_end line is not written and the original exception is replaced", 5)
+    probes = _sanitiser_probes(repo)
+    if not probes:
+        raise AnalysisError("no json.dumps probe found in the sanitisers (serialize_json_safe / _json_safe_sample): cannot relate writer and probe options")
+    for w in _driver_writes(repo):
+        for d in w.dumps:
+            problems: List[str] = []
+            for opt, (rejects, exc_class) in STRICTER_DUMPS.items():
+                strict = _option_strict(d, opt)
+                if strict is False:
+                    continue
+                if _caught_by(d, exc_class) or _caught_by(w.call, exc_class):
+                    continue
+                if strict is None:
+                    raise AnalysisError(f"{w.qn}: option `{opt}` of `{norm(d)[:70]}` is not a literal")
+                lax = [(prel, pqn, p) for prel, pqn, p in probes if _option_strict(p, opt) is not True]
+                if lax:
+                    prel, pqn, p = lax[0]
+                    problems.append(f"`{opt}={ast.unparse(kwarg(d, opt))}` makes this writer reject {rejects}, which the probe `{norm(p)[:60]}` of {pqn} ({prel}:{getattr(p, 'lineno', 0)}) accepts: such a value reaches the record unsanitised, json.dumps raises {exc_class} in the driver callback (not caught there), the line is not written - no SER for a started node / no pipeline_start or pipeline_end - and the caller gets {exc_class} instead of the original exception")
+            if problems:
+                R.violation(r, JSONL, w.qn, norm(d)[:110], problems[0], getattr(d, "lineno", w.call.lineno))
+            else:
+                R.ok(r, JSONL, w.qn, norm(d)[:110], "no stricter than the sanitiser probes")
+
+
+# ---------------------------------------------------------------------------
+# D1g: the text of an exception the framework defines can always be produced
+# ---------------------------------------------------------------------------
+
+import builtins as _builtins
+import re as _re
+
+BUILTIN_EXCEPTIONS = {n for n, v in vars(_builtins).items() if isinstance(v, type) and issubclass(v, BaseException)}
+RENDER_DUNDERS = ("__str__", "__repr__", "__format__")
+EXC_BASE_ATTRS = {"args", "__class__", "__cause__", "__context__", "__traceback__", "__notes__", "__dict__", "__doc__", "__module__"}
+TEXT_MAKERS = {"str", "repr", "ascii", "format", "safe_repr"}
+
+
+def _exception_classes(repo: Repo) -> List[Tuple[object, str, ast.ClassDef]]:
+    """Classes of the package whose ancestry reaches a builtin exception class."""
+    out = []
+    for mod in list(repo.modules.values()):
+        for qn, cls in mod.defs.items():
+            if not isinstance(cls, ast.ClassDef):
+                continue
+            chain = repo.mro(mod, cls)
+            if any((dotted_name(b) or "").split(".")[-1] in BUILTIN_EXCEPTIONS for _m, c in chain for b in c.bases):
+                out.append((mod, qn, cls))
+    return out
+
+
+def _text_typed(v: Optional[ast.AST]) -> bool:
+    """The expression evaluates to a str whenever it evaluates at all."""
+    if isinstance(v, ast.JoinedStr) or (isinstance(v, ast.Constant) and isinstance(v.value, str)):
+        return True
+    if isinstance(v, ast.Call):
+        a = call_attr(v)
+        if isinstance(v.func, ast.Name):
+            return a in TEXT_MAKERS
+        return a in TEXT_METHODS_ALWAYS or (a in TEXT_METHODS_OF_TEXT and _text_typed(v.func.value))
+    if isinstance(v, ast.BinOp) and isinstance(v.op, (ast.Add, ast.Mod)):
+        return _text_typed(v.left)
+    if isinstance(v, ast.IfExp):
+        return _text_typed(v.body) and _text_typed(v.orelse)
+    return False
+
+
+class _RenderTotal:
+    """Can ``__str__`` / ``__repr__`` / ``__format__`` of an exception class raise for some values of the fields the
+    constructor accepted?  Reading a field and formatting it plainly (``{x}``, ``{x!r}``, ``str(x)``) is taken to be total
+    (the same assumption as for ``str(exc)`` itself); every other operation on a field - a method call, ``.join`` over it,
+    iteration, indexing, arithmetic, a format spec, ``len`` - depends on what the field holds and was not tried when
+    the exception was constructed."""
+
+    def __init__(self, repo: Repo, mod, cls: ast.ClassDef):
+        self.repo, self.mod, self.cls = repo, mod, cls
+        self.chain = repo.mro(mod, cls)
+        self.stores: Dict[str, List[ast.AST]] = {}
+        self.class_level: Set[str] = set()
+        for _m, c in self.chain:
+            for st in c.body:
+                if isinstance(st, (ast.Assign, ast.AnnAssign)):
+                    for t in (st.targets if isinstance(st, ast.Assign) else [st.target]):
+                        if isinstance(t, ast.Name):
+                            self.class_level.add(t.id)
+                if isinstance(st, FuncNode):
+                    rcv = st.args.args[0].arg if st.args.args else None
+                    for n in ast.walk(st):
+                        if isinstance(n, (ast.Assign, ast.AnnAssign)) and n.value is not None:
+                            for t in (n.targets if isinstance(n, ast.Assign) else [n.target]):
+                                if isinstance(t, ast.Attribute) and isinstance(t.value, ast.Name) and t.value.id == rcv:
+                                    self.stores.setdefault(t.attr, []).append(n.value)
+        self.bad: Optional[Tuple[ast.AST, str]] = None
+
+    def fail(self, e: ast.AST, why: str) -> None:
+        if self.bad is None:
+            self.bad = (e, why)
+
+    def method_total(self, fn: ast.AST, depth: int = 0) -> bool:
+        rcv = fn.args.args[0].arg if fn.args.args else "self"
+        env: Dict[str, str] = {}
+        return self.block(fn.body, rcv, env, depth, want_text=fn.name in RENDER_DUNDERS) and self.bad is None
+
+    def block(self, body: List[ast.stmt], rcv: str, env: Dict[str, str], depth: int, want_text: bool) -> bool:
+        for st in body:
+            if isinstance(st, ast.Pass) or (isinstance(st, ast.Expr) and isinstance(st.value, ast.Constant)):
+                continue
+            if isinstance(st, ast.Return):
+                k = self.kind(st.value, rcv, env, depth) if st.value is not None else "val"
+                if k is None:
+                    return False
+                if want_text and k != "text":
+                    self.fail(st.value or st, "returns a value that is not text by construction (a field of any type): str() raises TypeError for a non-str result")
+                    return False
+            elif isinstance(st, (ast.Assign, ast.AnnAssign)) and st.value is not None and all(isinstance(t, ast.Name) for t in (st.targets if isinstance(st, ast.Assign) else [st.target])):
+                k = self.kind(st.value, rcv, env, depth)
+                if k is None:
+                    return False
+                for t in (st.targets if isinstance(st, ast.Assign) else [st.target]):
+                    env[t.id] = k if env.get(t.id, k) == k else "val"
+            elif isinstance(st, ast.If):
+                if self.kind(st.test, rcv, env, depth) is None:
+                    return False
+                if not (self.block(st.body, rcv, env, depth, want_text) and self.block(st.orelse, rcv, env, depth, want_text)):
+                    return False
+            elif isinstance(st, ast.Try):
+                catches_all = any(h.type is None or (dotted_name(h.type) or "").split(".")[-1] in ("Exception", "BaseException") for h in st.handlers)
+                if catches_all and not st.finalbody:
+                    # whatever the body does is contained; what it returns must still be text, and the handlers total
+                    saved = self.bad
+                    inner_ok = self.block(st.body + st.orelse, rcv, dict(env), depth, want_text)
+                    if not inner_ok and self.bad is not None and "not text" in self.bad[1]:
+                        return False
+                    self.bad = saved
+                    for h in st.handlers:
+                        if not self.block(h.body, rcv, env, depth, want_text):
+                            return False
+                else:
+                    if not self.block(st.body + st.orelse + [x for h in st.handlers for x in h.body] + st.finalbody, rcv, env, depth, want_text):
+                        return False
+            else:
+                self.fail(st, f"`{type(st).__name__.lower()}` statement whose outcome depends on what the fields hold")
+                return False
+        return True
+
+    def attr_kind(self, attr: str, e: ast.AST, depth: int) -> Optional[str]:
+        if attr in SAFE_DUNDERS:
+            return "text"
+        if attr in self.stores:
+            return "text" if all(_text_typed(v) for v in self.stores[attr]) else "val"
+        if attr in EXC_BASE_ATTRS or attr in self.class_level:
+            return "val"
+        hit = self.repo.method(self.mod, self.cls, attr)
+        if hit is not None and depth < 2 and any((dotted_name(d) or "").split(".")[-1] in ("property", "cached_property") for d in hit[1].decorator_list):
+            sub = _RenderTotal(self.repo, self.mod, self.cls)
+            if sub.method_total(hit[1], depth + 1):
+                return "val"
+            self.fail(*(sub.bad or (e, f"property `{attr}` may raise")))
+            return None
+        self.fail(e, f"reads `{attr}`, which no method of the class assigns (AttributeError)")
+        return None
+
+    def kind(self, e: Optional[ast.AST], rcv: str, env: Dict[str, str], depth: int) -> Optional[str]:
+        """'text' / 'val' when evaluating *e* cannot raise, None (and self.bad set) when it can."""
+        K = lambda x: self.kind(x, rcv, env, depth)
+        if e is None:
+            return "val"
+        if isinstance(e, ast.Constant):
+            return "text" if isinstance(e.value, str) else "val"
+        if isinstance(e, ast.JoinedStr):
+            for v in e.values:
+                if isinstance(v, ast.FormattedValue):
+                    if v.format_spec is not None and not (isinstance(v.format_spec, ast.JoinedStr) and not v.format_spec.values):
+                        self.fail(v.value, f"format spec applied to `{norm(v.value)[:40]}` (raises for a value the spec does not fit)")
+                        return None
+                    if K(v.value) is None:
+                        return None
+            return "text"
+        if isinstance(e, ast.Name):
+            return env.get(e.id, "val")
+        if isinstance(e, ast.Attribute):
+            if isinstance(e.value, ast.Name) and e.value.id == rcv:
+                return self.attr_kind(e.attr, e, depth)
+            if e.attr in SAFE_DUNDERS:
+                return "text" if K(e.value) is not None else None
+            if e.attr == "__class__" and K(e.value) is not None:
+                return "val"
+            self.fail(e, f"attribute `{e.attr}` of a value of unknown type (`{norm(e.value)[:40]}`)")
+            return None
+        if isinstance(e, ast.Call):
+            a = call_attr(e)
+            args = list(e.args) + [k.value for k in e.keywords]
+            if any(isinstance(x, ast.Starred) for x in e.args) or any(k.arg is None for k in e.keywords):
+                self.fail(e, "call with unpacked arguments")
+                return None
+            if isinstance(e.func, ast.Name):
+                if a in TEXT_MAKERS and (a != "format" or len(args) == 1):
+                    return "text" if all(K(x) is not None for x in args) else None
+                if a in ("type", "isinstance", "bool", "id", "callable") or (a in ("getattr", "hasattr") and len(args) >= 2 and (a == "hasattr" or len(args) == 3)):
+                    return "val" if all(K(x) is not None for x in args) else None
+                self.fail(e, f"`{a}(..)` applied to field values that the constructor accepted without trying it")
+                return None
+            if isinstance(e.func, ast.Attribute):
+                recv = e.func.value
+                if isinstance(recv, ast.Call) and isinstance(recv.func, ast.Name) and recv.func.id == "super" and a in RENDER_DUNDERS:
+                    return "text"
+                rk = None
+                if isinstance(recv, (ast.Constant, ast.JoinedStr)) or (isinstance(recv, ast.Name) and env.get(recv.id) == "text") or _text_typed(recv):
+                    rk = K(recv)
+                    if rk is None:
+                        return None
+                if rk == "text":
+                    if a == "join" and len(args) == 1:
+                        it = args[0]
+                        if isinstance(it, (ast.List, ast.Tuple)) and all(K(x) == "text" for x in it.elts):
+                            return "text"
+                        if self.bad is None:
+                            self.fail(e, f"`.join({norm(it)[:50]})` raises TypeError unless every item is a str, and raises when the field cannot be iterated - neither was tried when the exception was constructed")
+                        return None
+                    if a in TEXT_METHODS_OF_TEXT or a == "format":
+                        return "text" if all(K(x) is not None for x in args) else None
+                self.fail(e, f"method call `{norm(e.func)[:50]}(..)` on a value the constructor did not validate")
+                return None
+            self.fail(e, "call of a computed callable")
+            return None
+        if isinstance(e, ast.BinOp):
+            if isinstance(e.op, ast.Add):
+                l, r_ = K(e.left), K(e.right)
+                if l is None or r_ is None:
+                    return None
+                if l == "text" and r_ == "text":
+                    return "text"
+                self.fail(e, "`+` of operands that are not both text by construction")
+                return None
+            if isinstance(e.op, ast.Mod) and isinstance(e.left, ast.Constant) and isinstance(e.left.value, str):
+                specs = _re.findall(r"%(?!%)(.)", e.left.value.replace("%%", ""))
+                if isinstance(e.right, ast.Tuple) and len(e.right.elts) == len(specs) and set(specs) <= {"s", "r", "a"} and all(K(x) is not None for x in e.right.elts):
+                    return "text"
+                self.fail(e, "%-formatting whose success depends on the field values (conversion type / tuple-valued operand)")
+                return None
+            self.fail(e, "arithmetic on field values")
+            return None
+        if isinstance(e, ast.IfExp):
+            ks = [K(e.test), K(e.body), K(e.orelse)]
+            if None in ks:
+                return None
+            return "text" if ks[1] == ks[2] == "text" else "val"
+        if isinstance(e, ast.BoolOp):
+            ks = [K(v) for v in e.values]
+            if None in ks:
+                return None
+            return "text" if all(k == "text" for k in ks) else "val"
+        if isinstance(e, ast.UnaryOp) and isinstance(e.op, ast.Not):
+            return None if K(e.operand) is None else "val"
+        if isinstance(e, ast.Compare):
+            parts = [e.left] + list(e.comparators)
+            if any(K(x) is None for x in parts):
+                return None
+            if all(isinstance(op, (ast.Is, ast.IsNot)) for op in e.ops) or (all(isinstance(op, (ast.Eq, ast.NotEq)) for op in e.ops) and any(isinstance(x, ast.Constant) for x in parts)):
+                return "val"
+            self.fail(e, "comparison between field values")
+            return None
+        if isinstance(e, (ast.Tuple, ast.List)):
+            return None if any(K(x) is None for x in e.elts) else "val"
+        self.fail(e, f"`{type(e).__name__}` expression over field values (indexing / iteration / other operation that was not tried when the exception was constructed)")
+        return None
+
+
+def _exception_text_rules(repo: Repo, R: Report) -> None:
+    r = R.rule("C06-D1g-exception-text-total", "the closing code turns the caught exception into text with str()/repr() inside the handler; for every exception class the package defines that rendering is the builtin one (message formatted when the exception is constructed, so a bad field fails at the raise site and *is* the original exception) or an override that cannot raise whatever the fields hold - a lazy __str__/__repr__ that calls methods of / joins / indexes / iterates unvalidated fields raises inside `except BaseException`, pipeline_end (or the error SER) is not written and the caller gets that secondary exception", 3)
+    classes = _exception_classes(repo)
+    if not classes:
+        raise AnalysisError("no exception class found in the package (anchor vanished)")
+    for mod, qn, cls in classes:
+        repo.module(mod.rel)
+        overridden = []
+        for dn in RENDER_DUNDERS:
+            hit = repo.method(mod, cls, dn)
+            if hit is not None:
+                overridden.append((dn, hit))
+        if not overridden:
+            R.ok(r, mod.rel, qn, f"class {cls.name}: str()/repr()", "builtin rendering of args")
+            continue
+        for dn, (m2, fn) in overridden:
+            J = _RenderTotal(repo, mod, cls)
+            ok = J.method_total(fn)
+            if ok:
+                R.ok(r, m2.rel, qualname_of(fn), f"class {cls.name}: {dn}", "cannot raise whatever the fields hold")
+            else:
+                e, why = J.bad or (fn, "may raise")
+                R.violation(r, m2.rel, qualname_of(fn), norm(e)[:110],
+                            f"`{cls.name}.{dn}` renders the message on demand and can itself raise: {why}. execute() calls str(exc) inside `except BaseException` (error SER, pipeline_end): for such field values the rendering raises there, the closing record is not written - the trace ends without pipeline_end / lacks the SER of the failed node - and the caller receives the secondary exception instead of the one that was raised", getattr(e, "lineno", fn.lineno))
+
+
+# ---------------------------------------------------------------------------
+# D1h: the evidence helpers the closing code calls do not raise on arbitrary context / payload values
+# ---------------------------------------------------------------------------
+
+RICH_COMPARE = (ast.Eq, ast.NotEq, ast.Lt, ast.LtE, ast.Gt, ast.GtE)
+CONTAINER_HEADS = {"Dict", "dict", "Mapping", "MutableMapping", "List", "list", "Sequence", "Iterable", "Tuple", "tuple", "Set", "set", "Collection", "DefaultDict", "OrderedDict"}
+
+
+def _contained(node: ast.AST) -> bool:
+    """*node* is evaluated in the body of a try whose handler catches Exception (or more) and does not raise again."""
+    cur = node
+    for a in ancestors(node):
+        if isinstance(a, FuncNode + (ast.Lambda,)):
+            break
+        if isinstance(a, ast.Try) and any(cur is st for st in a.body):
+            for h in a.handlers:
+                names = {"BaseException"} if h.type is None else {(dotted_name(x) or "").split(".")[-1] for x in (h.type.elts if isinstance(h.type, ast.Tuple) else [h.type])}
+                if names & {"Exception", "BaseException"} and not any(isinstance(x, ast.Raise) for st in h.body for x in walk_no_nested(st)):
+                    return True
+        cur = a
+    return False
+
+
+class _Live:
+    """Which expressions of a function denote an arbitrary user value (a context entry, the payload data) or a
+    container of such values (the context, a snapshot of it), given which of its parameters do (taint handed down
+    from execute()'s run state along the call graph)."""
+
+    def __init__(self, fn: ast.AST, value: Set[str], container: Set[str], call_kind=None, payloads: Optional[Set[str]] = None):
+        self.fn = fn
+        self.value: Set[str] = set(value)
+        self.container: Set[str] = set(container)
+        self.payloads: Set[str] = set(payloads or ())
+        self.call_kind = call_kind
+        self._busy = False
+        changed = True
+        rounds = 0
+        while changed and rounds < 8:
+            changed = False
+            rounds += 1
+            for n in (walk_no_nested(fn) if not isinstance(fn, ast.Lambda) else []):
+                pairs: List[Tuple[ast.AST, ast.AST]] = []
+                if isinstance(n, ast.Assign):
+                    pairs = [(t, n.value) for t in n.targets]
+                elif isinstance(n, ast.AnnAssign) and n.value is not None:
+                    pairs = [(n.target, n.value)]
+                elif isinstance(n, ast.NamedExpr):
+                    pairs = [(n.target, n.value)]
+                flat: List[Tuple[ast.AST, ast.AST]] = []
+                for t, v in pairs:
+                    if isinstance(t, (ast.Tuple, ast.List)) and isinstance(v, (ast.Tuple, ast.List)) and len(t.elts) == len(v.elts):
+                        flat.extend(zip(t.elts, v.elts))
+                    else:
+                        flat.append((t, v))
+                for t, v in flat:
+                    if not isinstance(t, ast.Name):
+                        continue
+                    if t.id not in self.value and self.is_value(v):
+                        self.value.add(t.id)
+                        changed = True
+                    elif t.id not in self.container and t.id not in self.value and self.is_container(v):
+                        self.container.add(t.id)
+                        changed = True
+                its: List[Tuple[ast.AST, ast.AST]] = []
+                if isinstance(n, (ast.For, ast.AsyncFor)):
+                    its = [(n.target, n.iter)]
+                elif isinstance(n, (ast.ListComp, ast.SetComp, ast.GeneratorExp, ast.DictComp)):
+                    its = [(g_.target, g_.iter) for g_ in n.generators]
+                for t, it in its:
+                    for nm in self.item_names(t, it):
+                        if nm not in self.value:
+                            self.value.add(nm)
+                            changed = True
+
+    def _call(self, e: ast.Call) -> Optional[str]:
+        if self.call_kind is None or self._busy:
+            return None
+        self._busy = True
+        try:
+            return self.call_kind(e, self)
+        finally:
+            self._busy = False
+
+    def is_container(self, e: Optional[ast.AST]) -> bool:
+        if e is None:
+            return False
+        if isinstance(e, ast.Name):
+            return e.id in self.container
+        if isinstance(e, ast.Attribute):
+            return isinstance(e.value, ast.Name) and e.value.id in self.payloads and e.attr == "context"
+        if isinstance(e, ast.Call):
+            if isinstance(e.func, ast.Name) and e.func.id in ("dict", "list", "tuple") and len(e.args) == 1:
+                return self.is_container(e.args[0])
+            if isinstance(e.func, ast.Attribute) and e.func.attr in ("copy", "to_dict", "as_dict") and not e.args and self.is_container(e.func.value):
+                return True
+            return self._call(e) == "container"
+        if isinstance(e, ast.BoolOp):
+            return any(self.is_container(v) for v in e.values)
+        if isinstance(e, ast.IfExp):
+            return self.is_container(e.body) or self.is_container(e.orelse)
+        if isinstance(e, ast.DictComp):
+            return self.is_value(e.value) or any(self.item_names(g_.target, g_.iter) for g_ in e.generators)
+        return False
+
+    def item_names(self, target: ast.AST, it: ast.AST) -> Set[str]:
+        """Loop / comprehension targets that are bound to items (values, not keys) of a live container."""
+        if isinstance(it, ast.Call) and isinstance(it.func, ast.Attribute) and self.is_container(it.func.value) and not it.args:
+            if it.func.attr == "values" and isinstance(target, ast.Name):
+                return {target.id}
+            if it.func.attr == "items" and isinstance(target, ast.Tuple) and len(target.elts) == 2 and isinstance(target.elts[1], ast.Name):
+                return {target.elts[1].id}
+        return set()
+
+    def is_value(self, e: Optional[ast.AST]) -> bool:
+        if e is None:
+            return False
+        if isinstance(e, ast.Name):
+            return e.id in self.value
+        if isinstance(e, ast.Attribute):
+            if isinstance(e.value, ast.Name) and e.value.id in self.payloads:
+                return e.attr != "context"
+            return e.attr not in SAFE_DUNDERS and self.is_value(e.value)
+        if isinstance(e, ast.Subscript):
+            return self.is_value(e.value) or self.is_container(e.value)
+        if isinstance(e, ast.Call):
+            if isinstance(e.func, ast.Attribute) and e.func.attr in ("get", "pop", "setdefault") and e.args and self.is_container(e.func.value):
+                return True
+            return self._call(e) == "value"
+        if isinstance(e, ast.IfExp):
+            return self.is_value(e.body) or self.is_value(e.orelse)
+        if isinstance(e, ast.BoolOp):
+            return any(self.is_value(v) for v in e.values)
+        if isinstance(e, ast.NamedExpr):
+            return self.is_value(e.value)
+        return False
+
+
+def _truth_tested(node: ast.AST) -> bool:
+    """The value of *node* is converted to a truth value where it stands."""
+    from ..engine import parent
+    cur = node
+    while True:
+        p_ = parent(cur)
+        if p_ is None:
+            return False
+        if isinstance(p_, (ast.If, ast.While, ast.IfExp, ast.Assert)) and p_.test is cur:
+            return True
+        if isinstance(p_, ast.comprehension) and any(cur is x for x in p_.ifs):
+            return True
+        if isinstance(p_, ast.UnaryOp) and isinstance(p_.op, ast.Not):
+            return True
+        if isinstance(p_, ast.Call) and isinstance(p_.func, ast.Name) and p_.func.id == "bool" and any(cur is x for x in p_.args):
+            return True
+        if isinstance(p_, ast.BoolOp):
+            if cur is not p_.values[-1]:
+                return True
+            cur = p_
+            continue
+        return False
+
+
+def _handler_regions(fn: ast.AST) -> List[Tuple[str, List[ast.stmt]]]:
+    out: List[Tuple[str, List[ast.stmt]]] = []
+    for t in walk_no_nested(fn):
+        if isinstance(t, ast.Try):
+            for h in t.handlers:
+                out.append((norm(h)[:60], h.body))
+            if t.finalbody:
+                out.append(("finally", t.finalbody))
+    return out
+
+
+class _ClosingClosure:
+    """Functions of the package that run while execute() holds a caught exception (called from its handlers and
+    finally blocks) - through self-calls, module functions, methods of locals bound to a constructor call and callables
+    handed to a hooks object as constructor keywords - together with which of their parameters receive the run state:
+    the payload data / a context entry ('value') or the context / a snapshot of it ('container')."""
+
+    def __init__(self, repo: Repo):
+        self.repo = repo
+        self.omod = repo.module(ORCH)
+        self.raw = repo.func(ORCH, EXECUTE)
+        self.drivers = _orch.trace_tainted(self.raw)
+        self.info: Dict[int, Tuple[object, ast.AST, Tuple[str, ...], List[ast.Call]]] = {}
+        self.taint: Dict[int, Tuple[Set[str], Set[str]]] = {}
+        payloads = {a.arg for a in self.raw.args.posonlyargs + self.raw.args.args + self.raw.args.kwonlyargs
+                    if a.annotation is not None and (dotted_name(a.annotation) or "").split(".")[-1] == "Payload"}
+        if not payloads:
+            raise AnalysisError("execute(): no parameter declared as Payload (run state not found)")
+        self.root = _Live(self.raw, set(), set(), self.kind_in(self.omod, self.raw), payloads)
+        for _label, body in _handler_regions(self.raw):
+            for st in body:
+                self.walk(self.omod, self.raw, st, self.root, (EXECUTE,), 0)
+
+    def targets_of(self, mod, scope_fn: ast.AST, c: ast.Call) -> List[Tuple[object, ast.AST, Optional[ast.AST]]]:
+        """[(module, def or lambda, the function a lambda is written in)]"""
+        repo = self.repo
+        try:
+            ts = [(m_, t_, None) for m_, t_ in repo.resolve_call(mod, c) if isinstance(t_, FuncNode)]
+        except Exception:
+            ts = []
+        if ts:
+            return ts
+        f = c.func
+        if isinstance(f, ast.Attribute) and isinstance(f.value, ast.Name) and f.value.id not in ("self", "cls") and isinstance(scope_fn, FuncNode):
+            for v in assigned_value(scope_fn, f.value.id):
+                if not isinstance(v, ast.Call) or not isinstance(v.func, (ast.Name, ast.Attribute)):
+                    continue
+                r = repo.resolve_name(mod, v.func, v)
+                if r is None or not isinstance(r[1], ast.ClassDef):
+                    continue
+                m_ = repo.method(r[0], r[1], f.attr)
+                if m_ is not None and isinstance(m_[1], FuncNode):
+                    ts.append((m_[0], m_[1], None))
+                    continue
+                given = kwarg(v, f.attr)  # a callable stored on a record object: hooks.provider()
+                if isinstance(given, ast.Lambda):
+                    ts.append((mod, given, scope_fn))
+                elif isinstance(given, ast.Name):
+                    r2 = repo.resolve_name(mod, given, v)
+                    if r2 is not None and isinstance(r2[1], FuncNode):
+                        from ..engine import enclosing_function
+                        ts.append((r2[0], r2[1], scope_fn if enclosing_function(r2[1]) is scope_fn else None))
+        return ts
+
+    def bind(self, callee: ast.AST, c: ast.Call, L: "_Live") -> Tuple[Set[str], Set[str]]:
+        b = _bind_params(callee, c) or {}
+        return {p_ for p_, a in b.items() if L.is_value(a)}, {p_ for p_, a in b.items() if L.is_container(a)}
+
+    def kind_in(self, mod, scope_fn: ast.AST, depth: int = 0):
+        """What a call written in *scope_fn* returns: 'container' / 'value' when the callee returns (a copy of) a live
+        container / a live value for the arguments it is given."""
+        def kind(c: ast.Call, L: "_Live") -> Optional[str]:
+            if depth > 2:
+                return None
+            out: Set[str] = set()
+            for m_, t_, _sc in self.targets_of(mod, scope_fn, c):
+                if isinstance(t_, ast.Lambda):
+                    continue
+                v, cont = self.bind(t_, c, L)
+                if not (v or cont):
+                    continue
+                Lc = _Live(t_, v, cont, self.kind_in(m_, t_, depth + 1))
+                for r_ in walk_no_nested(t_):
+                    if isinstance(r_, ast.Return) and r_.value is not None:
+                        if Lc.is_container(r_.value):
+                            out.add("container")
+                        elif Lc.is_value(r_.value):
+                            out.add("value")
+            return "container" if "container" in out else ("value" if "value" in out else None)
+        return kind
+
+    def walk(self, mod, scope_fn: ast.AST, region: ast.AST, L: "_Live", path: Tuple[str, ...], depth: int) -> None:
+        for c in [x for x in ast.walk(region) if isinstance(x, ast.Call)]:
+            if isinstance(c.func, ast.Attribute) and isinstance(c.func.value, ast.Name) and c.func.value.id in self.drivers and c.func.attr in _orch.DRIVER_METHODS:
+                continue
+            for m_, t_, lam_scope in self.targets_of(mod, scope_fn, c):
+                if isinstance(t_, ast.Lambda) or lam_scope is not None:
+                    # a lambda / local function handed over as a callable: its calls are made with the locals of the
+                    # function it is written in
+                    if depth < 6:
+                        for part in ([t_.body] if isinstance(t_, ast.Lambda) else t_.body):
+                            self.walk(m_, lam_scope, part, L, path + (getattr(t_, "name", "<lambda>"),), depth + 1)
+                    continue
+                v, cont = self.bind(t_, c, L)
+                first = id(t_) not in self.info
+                if first:
+                    if len(self.info) >= 150:
+                        continue
+                    self.info[id(t_)] = (m_, t_, path + (qualname_of(t_),), [])
+                    self.taint[id(t_)] = (set(), set())
+                    self.repo.consulted.add(m_.rel)
+                self.info[id(t_)][3].append(c)
+                tv, tc = self.taint[id(t_)]
+                grew = not (v <= tv and cont <= tc)
+                tv |= v
+                tc |= cont
+                if (first or grew) and depth < 6:
+                    Lc = _Live(t_, tv, tc, self.kind_in(m_, t_))
+                    self.walk(m_, t_, t_, Lc, path + (qualname_of(t_),), depth + 1)
+
+
+def _closing_helpers_total_rule(repo: Repo, R: Report) -> None:
+    r = R.rule("C06-D1h-closing-helpers-total-on-user-values", "the helpers execute() calls from its handlers / finally blocks (context snapshot, delta provider, post-checks, summaries, SER builder, and what they call) never coerce the payload data / a context entry - or the result of a rich comparison of such values - to a truth value outside a try that contains Exception: `bool(a == b)` raises ValueError for array-likes (numpy, pandas, containers of them); raised inside `except BaseException` it loses the SER of the failed node and replaces the original exception", 3)
+    C = _ClosingClosure(repo)
+    if len(C.info) < 3:
+        raise AnalysisError("execute(): the helpers called from its handlers were not found (call graph from the closing code is empty)")
+    n_funcs = 0
+    for _id, (mod, fn, path, sites) in sorted(C.info.items(), key=lambda kv: (kv[1][0].rel, kv[1][1].lineno)):
+        tv, tc = C.taint[_id]
+        if not (tv or tc):
+            continue
+        L = _Live(fn, tv, tc, C.kind_in(mod, fn))
+        n_funcs += 1
+        qn = qualname_of(fn)
+        found: List[Tuple[ast.AST, str]] = []
+        for n in walk_no_nested(fn):
+            if isinstance(n, ast.Compare):
+                operands = [n.left] + list(n.comparators)
+                rich = any(isinstance(op, RICH_COMPARE) for op in n.ops) and any(L.is_value(x) for x in operands)
+                member = any(isinstance(op, (ast.In, ast.NotIn)) for op in n.ops) and L.is_value(n.left) and not all(isinstance(c_, ast.Dict) for c_ in n.comparators)
+                if (rich or member) and _truth_tested(n):
+                    found.append((n, f"the result of `{norm(n)[:50]}` on arbitrary user values (context entries / payload data) is used as a truth value (elementwise for array-likes: `bool(..)` raises ValueError)"))
+            elif isinstance(n, (ast.Name, ast.Attribute, ast.Subscript, ast.Call)) and isinstance(getattr(n, "ctx", ast.Load()), ast.Load) and L.is_value(n) and _truth_tested(n):
+                found.append((n, f"the truth value of the arbitrary user value `{norm(n)[:50]}` (a context entry / the payload data) is taken (ambiguous for array-likes: raises ValueError)"))
+        open_ = [(n, why) for n, why in found if not _contained(n)]
+        if open_ and sites and all(_contained(c) for c in sites):
+            open_ = []  # every call of this helper is made inside a containing try
+        if open_:
+            n, why = open_[0]
+            R.violation(r, mod.rel, qn, norm(stmt_of(n))[:110],
+                        f"{why}, outside any try that contains Exception. The function runs inside execute()'s handlers ({' -> '.join(path[-4:])}): when it raises there, the error SER / pipeline_end is not written and the caller receives this ValueError instead of the exception the node raised (and a run whose nodes all succeeded fails)", n.lineno)
+        else:
+            R.ok(r, mod.rel, qn, f"{qn}: truth tests of user values", "none, or contained")
+    if n_funcs < 2:
+        raise AnalysisError("closing code: no helper that receives the run state was found on the call graph from execute()'s handlers")
